@@ -1023,10 +1023,8 @@ def gen1(units, R):
             pc_ = cmp_parts(ec)
             if pc_ is not None and strip_casts(pc_[0]).get('k') == 'call':
                 ecall = strip_casts(pc_[0])
-            if refusing is None and ecall.get('k') == 'call' and callee_name(ecall) in u.functions and \
-                    not any(x.get('k') == 'ref' and x.get('d') in tainted for a_ in ecall['args'] for x in walk(a_)):
-                raise AnalysisBroken('GEN1: %s: whether differences are reported depends on the status of %s, a helper that is handed nothing '
-                                     'of the documents; whether it can refuse is not evaluated by this rule' % (h.where(e), callee_name(ecall)))
+            helper_status = refusing is None and ecall.get('k') == 'call' and callee_name(ecall) in u.functions and \
+                not any(x.get('k') == 'ref' and x.get('d') in tainted for a_ in ecall['args'] for x in walk(a_))
             for (y, l) in cfg.succ[m.id]:
                 if l is not None and l[0] in ('T', 'F') and _range_decides(u, e) == (l[0] != 'T'):
                     continue        # the edge cannot be taken: the comparison is settled by the range of the operand's type
@@ -1034,6 +1032,9 @@ def gen1(units, R):
                     continue
                 (loud if (y in can_emit) else silent).append((y, l))
             bad = bool(silent) and bool(loud)
+            if bad and helper_status:
+                raise AnalysisBroken('GEN1: %s: whether differences are reported depends on the status of %s, a helper that is handed nothing '
+                                     'of the documents; whether it can refuse is not evaluated by this rule' % (h.where(e), callee_name(ecall)))
             R.ob('GEN1', h, e, 'the condition %s, which does not come from the two documents, does not decide whether differences are reported' % expr_str(e)[:50],
                  not bad, 'both edges can still emit' if not bad else
                  'on its %s edge %s returns without emitting anything, whatever the documents contain' % (
@@ -1305,11 +1306,21 @@ def own11(units, R, unit_names=('cJSON_Utils.c',), floor=1):
             copies = [c for c in H.calls() if callee_name(c) in ('memcpy', '__builtin_memcpy', '__builtin___memcpy_chk', 'memmove') and len(c['args']) >= 2 and
                       strip_casts(c['args'][1]).get('k') == 'un' and strip_casts(c['args'][1])['op'] == '&' and
                       strip_casts(strip_casts(c['args'][1])['e']).get('d') == rep['d'] and strip_casts(c['args'][0]).get('k') == 'ref']
+            root = strip_casts(copies[0]['args'][0]) if copies else None
+            copy_expr = copies[0] if copies else None
             if not copies:
+                # the same copy written as an assignment of the whole record: *root = replacement
+                for a in assignments(H):
+                    l_, r_ = strip_casts(a['l']), strip_casts(a['r'])
+                    if a['op'] == '=' and l_.get('k') == 'un' and l_['op'] == '*' and strip_casts(l_['e']).get('k') == 'ref' and \
+                            r_.get('k') == 'ref' and r_.get('d') == rep['d']:
+                        root = strip_casts(l_['e'])
+                        copy_expr = a
+                        break
+            if root is None:
                 continue
-            root = strip_casts(copies[0]['args'][0])
             hcfg = H.cfg()
-            cnode = hcfg.node_of_expr(copies[0]['id'])
+            cnode = hcfg.node_of_expr(copy_expr['id'])
             after = hcfg.reachable(cnode.id) if cnode is not None else set()
             dropped = {}
             for a in assignments(H):
@@ -1354,7 +1365,10 @@ def own11(units, R, unit_names=('cJSON_Utils.c',), floor=1):
                           'node alone (cJSON_free(%s)) without releasing %s->%s: the block is lost' % (
                               H.name, root['n'], lost[0][0], lost[0][1]['loc'][0], lost[0][0], G.name, v['n'], v['n'], lost[0][0])),
                          key='byvalue:%s:%s' % (H.name, G.name))
-    R.floor('OWN11', 'nodes handed over by value and then freed alone', n, floor)
+    any_byval = any(u.ty(p_['ty'])['c'] == 'record' and u.ty(p_['ty'])['s'].replace('const ', '').split()[-1] == 'cJSON'
+                    for un_ in unit_names for f_ in units[un_].function_list if f_.body is not None for p_ in f_.params)
+    # no function takes a node by value: the interface this rule is about is gone, there is nothing to hand over
+    R.floor('OWN11', 'nodes handed over by value and then freed alone', n, floor if any_byval else 0)
 
 
 # ---- ESC5: a decoded character is not taken for the beginning of another escape sequence ------------------------------------------
